@@ -189,6 +189,33 @@ Lemma scoped_map_rewrite_deep aug pn l V V' :
   incl V V' -> incl pn V' -> scoped_b aug V l = true -> scoped_b aug V' (map (rewrite_deep pn) l) = true.
 Proof. apply rw_list. apply Forall_forall. intros; apply rewrite_deep_ok. Qed.
 
+(* dropping the hoisted declarations of names that are visible anyway *)
+Lemma scoped_drop aug pn : forall l V V',
+  incl V V' -> incl pn V' -> scoped_b aug V l = true -> scoped_b aug V' (drop_hoisted pn l) = true.
+Proof.
+  unfold drop_hoisted. induction l as [|n r IH]; intros V V' I P H; [reflexivity|].
+  cbn [scoped_b] in H. apply andb_true_iff in H as [H1 H2]. cbn [filter].
+  destruct (is_hoisted pn n) eqn:E; cbn [negb].
+  - apply (IH (decl_of n ++ V) V'); [|exact P|exact H2].
+    destruct n; try discriminate E. cbn [is_hoisted] in E. destruct init; try discriminate E. destruct glob; [discriminate E|].
+    cbn [decl_of app]. apply incl_cons; [apply P; apply tmem_In; exact E|exact I].
+  - cbn [scoped_b]. apply andb_true_iff. split; [exact (scoped_n_mono aug n V V' I H1)|].
+    apply (IH (decl_of n ++ V) (decl_of n ++ V')); [|apply incl_appr; exact P|exact H2].
+    apply incl_app; [apply incl_appl, incl_refl|apply incl_appr, I].
+Qed.
+
+Lemma scoped_rewrite_if_drop aug pn l V V' :
+  incl V V' -> incl pn V' -> scoped_b aug V l = true -> scoped_b aug V' (map (rewrite_if pn) (drop_hoisted pn l)) = true.
+Proof.
+  intros I P H. apply scoped_map_rewrite_if with (V := V'); [apply incl_refl|exact P|]. exact (scoped_drop aug pn l V V' I P H).
+Qed.
+
+Lemma scoped_rewrite_deep_drop aug pn l V V' :
+  incl V V' -> incl pn V' -> scoped_b aug V l = true -> scoped_b aug V' (map (rewrite_deep pn) (drop_hoisted pn l)) = true.
+Proof.
+  intros I P H. apply scoped_map_rewrite_deep with (V := V'); [apply incl_refl|exact P|]. exact (scoped_drop aug pn l V V' I P H).
+Qed.
+
 (* ------------------------------------------------------------ what one translated block guarantees *)
 
 Definition gn (s : tst) : list ident := gnames (globals s).
@@ -335,6 +362,46 @@ Proof.
     right; left. cbn. left. reflexivity.
 Qed.
 
+Lemma tuple_binds_main_post : forall xs es k s,
+  post s (fst (tuple_binds_main xs es k s)) (snd (tuple_binds_main xs es k s)).
+Proof.
+  induction xs as [|x xr IH]; intros [|e er] k s; cbn [tuple_binds_main fst snd]; try apply post_nil.
+  destruct (is_declared x s) eqn:D.
+  - specialize (IH er (k + 1) s). destruct (tuple_binds_main xr er (k + 1) s) as [rest s2]. cbn [fst snd] in *.
+    change (NAssign x (XTmp k) :: rest) with ([NAssign x (XTmp k)] ++ rest). eapply post_seq; [|exact IH].
+    unfold is_declared in D. apply tmem_In in D.
+    split; [apply incl_refl|]. intros V HD HG. split.
+    + rewrite scoped_assign; [reflexivity|reflexivity|apply HD; exact D].
+    + intros y Hy. left. exact Hy.
+  - match goal with |- context [tuple_binds_main xr er (k + 1) ?S] => specialize (IH er (k + 1) S); destruct (tuple_binds_main xr er (k + 1) S) as [rest s2] eqn:ET end.
+    cbn [fst snd] in *.
+    change (NAssign x (XTmp k) :: rest) with ([NAssign x (XTmp k)] ++ rest).
+    eapply post_seq; [|exact IH].
+    split.
+    + rewrite gn_add_global. apply incl_appl, incl_refl.
+    + intros V HD HG. split.
+      * rewrite scoped_assign; [reflexivity|reflexivity|]. apply HG. rewrite gn_add_global. apply in_or_app. right. left. reflexivity.
+      * intros y Hy. cbn in Hy. apply in_app_iff in Hy as [Hy|[<-|[]]]; [left; exact Hy|].
+        right; right. rewrite gn_add_global. apply in_or_app. right. left. reflexivity.
+Qed.
+
+Lemma tr_tuple_main_post xs es s ns s' : tr_tuple_main xs es s = Some (ns, s') -> post s ns s'.
+Proof.
+  unfold tr_tuple_main. destruct (negb _); [discriminate|].
+  set (es' := firstn (length xs) es).
+  destruct (set_tys_same xs es' s) as [SD SG].
+  set (k := tmpc (set_tys xs es' s)).
+  set (s2 := with_tmpc (k + Z.of_nat (length es')) (set_tys xs es' s)).
+  pose proof (tuple_binds_main_post xs es' k s2) as P.
+  destruct (tuple_binds_main xs es' k s2) as [binds s3]. cbn [fst snd] in P.
+  intros [= <- <-].
+  eapply post_seq; [|eapply post_ext; [| |exact P]].
+  + split; [apply incl_refl|]. intros V HD HG. destruct (tuple_tmps_scoped es' k V) as [A B].
+    split; [exact A|]. intros y Hy. left. exact Hy.
+  + unfold s2. cbn. symmetry. exact SD.
+  + unfold s2. cbn. symmetry. exact SG.
+Qed.
+
 Lemma tr_tuple_post glob xs es s ns s' : tr_tuple glob xs es s = Some (ns, s') -> post s ns s'.
 Proof.
   unfold tr_tuple. destruct (negb _); [discriminate|].
@@ -470,14 +537,14 @@ Lemma if_node_scoped pn V V' (brs : list (Z * list cnode * tst)) (els : list cno
   incl V V' -> incl pn V' ->
   Forall (fun x => scoped_b false V (snd (fst x)) = true) brs ->
   scoped_b false V els = true ->
-  scoped_n false V' (NIf (map (fun x => (fst (fst x), map (rewrite_if pn) (snd (fst x)))) brs)
-                         (map (rewrite_if pn) els)) = true.
+  scoped_n false V' (NIf (map (fun x => (fst (fst x), map (rewrite_if pn) (drop_hoisted pn (snd (fst x))))) brs)
+                         (map (rewrite_if pn) (drop_hoisted pn els))) = true.
 Proof.
   intros I P F E. rewrite scoped_n_unfold. apply andb_true_iff. split.
   - induction F as [|[[c n] t] r Hx _ IHr]; [reflexivity|].
     cbn [map scoped_bs fst snd] in *. rewrite IHr, andb_true_r.
-    exact (scoped_map_rewrite_if false pn n V V' I P Hx).
-  - exact (scoped_map_rewrite_if false pn els V V' I P E).
+    exact (scoped_rewrite_if_drop false pn n V V' I P Hx).
+  - exact (scoped_rewrite_if_drop false pn els V V' I P E).
 Qed.
 
 Lemma if_post glob s prom sA decls s3 (brs : list (Z * list cnode * tst)) (els : list cnode) cs :
@@ -485,8 +552,8 @@ Lemma if_post glob s prom sA decls s3 (brs : list (Z * list cnode * tst)) (els :
   declared sA = declared s -> globals sA = globals cs -> incl (gn s) (gn cs) ->
   Forall (good_branch s (globals cs)) brs ->
   (forall V, incl (declared s) V -> incl (gn cs) V -> scoped_b false V els = true) ->
-  post s (decls ++ [NIf (map (fun x => (fst (fst x), map (rewrite_if (map fst prom)) (snd (fst x)))) brs)
-                        (map (rewrite_if (map fst prom)) els)]) s3.
+  post s (decls ++ [NIf (map (fun x => (fst (fst x), map (rewrite_if (map fst prom)) (drop_hoisted (map fst prom) (snd (fst x))))) brs)
+                        (map (rewrite_if (map fst prom)) (drop_hoisted (map fst prom) els))]) s3.
 Proof.
   intros Ep DA GA MG F EL.
   eapply wrap_post; [exact Ep|exact DA|exact GA|exact MG|reflexivity|].
@@ -512,13 +579,13 @@ Proof.
     inversion Hr; subst. eapply post_seq; [exact Hp|]. eapply IH; eauto. }
   destruct p; cbn [tr_block] in H.
   - (* PAssign *)
-    pose proof (tr_assign_post glob x e s) as Hs.
-    destruct (tr_assign glob x e s) as [a0 a1]. eapply K; [exact H|exact Hs].
+    pose proof (tr_assign_post glob x (rt_ann ml e) s) as Hs.
+    destruct (tr_assign glob x (rt_ann ml e) s) as [a0 a1]. eapply K; [exact H|exact Hs].
   - (* PAug: the target is not checked *)
     eapply K; [exact H|].
     split; [apply incl_refl|]. intros V HD HG. split; [reflexivity|]. intros y Hy; left; exact Hy.
   - (* PTuple *)
-    head_opt H a0 a1 E. eapply K; [exact H|]. eapply tr_tuple_post; exact E.
+    head_opt H a0 a1 E. eapply K; [exact H|]. destruct (glob && ml); [eapply tr_tuple_main_post; exact E|eapply tr_tuple_post; exact E].
   - (* PIf *)
     head_opt H a0 a1 E. eapply K; [exact H|]. clear H K.
     destruct (tr_block ml f false ld (child_of s (globals s)) body) as [[ns1 cs1]|] eqn:E1; [|discriminate].
@@ -579,7 +646,7 @@ Proof.
     + rewrite ES. exact (proj1 (fold_with_ty prom _)).
     + rewrite ES. exact (proj2 (fold_with_ty prom _)).
     + intros V V' HD HG I P. rewrite scoped_n_unfold.
-      apply scoped_map_rewrite_deep with (V := V); [exact I| |exact (proj1 (Pb V HD HG))].
+      apply scoped_rewrite_deep_drop with (V := V); [exact I| |exact (proj1 (Pb V HD HG))].
       rewrite EN, map_fst_pair in P. exact P.
   - (* PFor *)
     head_opt H a0 a1 E. eapply K; [exact H|]. clear H K.
@@ -595,7 +662,7 @@ Proof.
     + rewrite ES. exact (proj1 (fold_with_ty prom _)).
     + rewrite ES. exact (proj2 (fold_with_ty prom _)).
     + intros V V' HD HG I P. rewrite scoped_n_unfold.
-      apply scoped_map_rewrite_deep with (V := x :: V).
+      apply scoped_rewrite_deep_drop with (V := x :: V).
       * apply incl_cons; [left; reflexivity|apply incl_tl, I].
       * apply incl_tl. rewrite EN, map_fst_pair in P. exact P.
       * apply (Pb (x :: V)).
@@ -633,7 +700,7 @@ Proof.
   destruct (tr_block false (bsize (p_pre p)) true 0 st0 (p_pre p)) as [[setup s1]|] eqn:E1; [|discriminate].
   destruct (tr_block_post _ _ _ _ _ _ _ _ E1) as [M1 P1].
   destruct (p_main p) as [body|].
-  - destruct (tr_block true (bsize body) false 1 s1 body) as [[loop s2]|] eqn:E2; [|discriminate].
+  - destruct (tr_block true (bsize body) true 1 s1 body) as [[loop s2]|] eqn:E2; [|discriminate].
     destruct (tr_block_post _ _ _ _ _ _ _ _ E2) as [M2 P2].
     inversion H; subst; cbn [c_globals c_setup c_loop].
     destruct (P1 (gn s2)) as [S1 C1]; [intros y []|exact M2|].
@@ -667,5 +734,5 @@ Qed.
 
 Example scope_demo_ok :
   exists c, transl scope_demo = Some c /\ topdecls (c_setup c) = [] /\ scoped_prog false c = true /\
-            length (c_globals c) = 3%nat /\ length (c_loop c) = 8%nat.
+            length (c_globals c) = 5%nat /\ length (c_loop c) = 7%nat.
 Proof. eexists. split; [vm_compute; reflexivity|]. vm_compute. repeat split; reflexivity. Qed.
